@@ -18,6 +18,8 @@ VERIF = os.path.dirname(os.path.dirname(os.path.abspath(__file__)))
 OUT = os.environ.get("VERIF_SCRATCH_OUT") or VERIF
 PY = sys.executable
 WORKERS = int(os.environ.get("VERIF_WORKERS", "16"))
+SHRINK_RUNS = int(os.environ.get("VERIF_SHRINK_RUNS", "400"))
+SHRINK_WALL_S = float(os.environ.get("VERIF_SHRINK_WALL_S", "40"))
 
 
 def _hyp():
@@ -53,6 +55,7 @@ def run_batch(pid, tier, batch_seed, n_examples, watchdog_s):
         "shrink_runs": 0,
         "slowest_s": 0.0,
         "slowest_case": None,
+        "pool": [],
     }
     digests = set()
     state = {"target": None, "last_fail": None, "searching": True}
@@ -66,15 +69,24 @@ def run_batch(pid, tier, batch_seed, n_examples, watchdog_s):
         out["evaluations"] += 1
         if state["target"] is not None:
             out["shrink_runs"] += 1
+            # shrink budget (reporting quality only: the verdict is already decided); once it
+            # is exhausted every candidate but the best failing case so far "passes", so that
+            # Hypothesis settles on that case and its final replay still fails
+            if (out["shrink_runs"] > SHRINK_RUNS
+                    or time.perf_counter() - state["t_first_fail"] > SHRINK_WALL_S):
+                if case_digest(case) != state["best_digest"]:
+                    return
         t_case = time.perf_counter()
         try:
             run = engine.execute(case, focus=pid)
         except Violation as v:
             if state["target"] is None:
                 state["target"] = v.label
+                state["t_first_fail"] = time.perf_counter()
             if v.label != state["target"]:
                 return  # keep the violation class stable while shrinking
             state["last_fail"] = (case, v.label, v.message)
+            state["best_digest"] = case_digest(case)
             raise
         dt = time.perf_counter() - t_case  # reporting only: never used for a decision
         if dt > out["slowest_s"]:
@@ -86,6 +98,8 @@ def run_batch(pid, tier, batch_seed, n_examples, watchdog_s):
                 out["probes"][k] = out["probes"].get(k, 0) + n
             for k, n in run.faults.items():
                 out["faults"][k] = out["faults"].get(k, 0) + n
+            if len(out["pool"]) < 6 and out["evaluations"] % 7 == 3:
+                out["pool"].append(case)
             if run.checks == 0:
                 out["skipped"] += 1
             elif run.nontrivial:
@@ -190,6 +204,7 @@ def check_property(prop, tier, base_seed):
         "sim_time": 0.0, "consults": 0, "permuted": 0, "skipped": 0, "shrink_runs": 0,
     }
     digests = set()
+    case_pool = []
     failure = None
     harness = None
     batches_done = 0
@@ -239,6 +254,7 @@ def check_property(prop, tier, base_seed):
                         for name, n in res[k].items():
                             agg[k][name] = agg[k].get(name, 0) + n
                     digests.update(res["digests"])
+                    case_pool.extend(res["pool"])
                     if len(agg["samples"]) < 3:
                         agg["samples"].extend(res["samples"][: 3 - len(agg["samples"])])
                     if res["slowest_s"] > agg.get("slowest_s", 0):
@@ -257,6 +273,24 @@ def check_property(prop, tier, base_seed):
                     break
     except cf.process.BrokenProcessPool as exc:
         harness = f"worker died (watchdog or crash): {exc!r}"
+
+    if failure is None and harness is None and hasattr(engine, "post_phase"):
+        try:
+            post = engine.post_phase(pid, tier, base_seed, case_pool)
+        except Exception as exc:  # noqa: BLE001
+            post = None
+            harness = "post phase: " + "".join(
+                traceback.format_exception(type(exc), exc, exc.__traceback__))[-4000:]
+        if post is not None:
+            agg["evaluations"] += post["evaluations"]
+            agg["checks"] += post["checks"]
+            for k in ("probes", "faults"):
+                for name, n in post[k].items():
+                    agg[k][name] = agg[k].get(name, 0) + n
+            digests.update(post["digests"])
+            if post["failure"] is not None:
+                failure = dict(post["failure"], batch=-2,
+                               batch_seed=derive_seed(base_seed, pid, "post") % (2**63))
 
     wall = time.time() - t0
     status = 0
